@@ -254,7 +254,10 @@ func (gqm *GroupQuotaManager) updateGroupDeltaUsedNoLock(quotaName string, delta
 		quotaInfo.addUsedNonNegativeNoLock(delta, deltaNonPreemptibleUsed, i == selfQuotaIndex)
 	}
 
-	if utilfeature.DefaultFeatureGate.Enabled(features.ElasticQuotaGuaranteeUsage) {
+	// the used of systemQuotaGroup and DefaultQuotaGroup is already excluded from the cluster total resource,
+	// it must not be guaranteed inside the root quota tree as well.
+	if utilfeature.DefaultFeatureGate.Enabled(features.ElasticQuotaGuaranteeUsage) &&
+		quotaName != extension.SystemQuotaName && quotaName != extension.DefaultQuotaName {
 		deltaAllocated := v1.ResourceList{}
 		for resKey := range gqm.resourceKeys {
 			q, ok := delta[resKey]
